@@ -99,3 +99,130 @@ def has_nested(kind, lst):
 
 def clone(x):
     return copy.deepcopy(x)
+
+
+# ---- sends through the clumping paths -------------------------------------
+# (NetAddr.send_clumped_bundles, `with server.bind():`, BundleNetAddr around
+# a NetAddr): sets of messages whose encoded size lies below, exactly at,
+# just above and far above the size of one UDP datagram.
+
+MAX_DGRAM = 65504       # documented limit (NetAddr._MAX_UDP_DGRAM_SIZE)
+
+
+def _pad4(n):
+    """OSC-string of n bytes: at least one NUL, then to a multiple of 4."""
+    return n + 4 - n % 4
+
+
+def msg_size(m):
+    """Encoded size of ['/addr', args...] by OSC 1.0 (int32, float32,
+    OSC-string, OSC-blob; nothing else is generated here)."""
+    n = _pad4(len(m[0].encode('utf-8'))) + _pad4(1 + len(m) - 1)
+    for a in m[1:]:
+        if isinstance(a, str):
+            n += _pad4(len(a.encode('utf-8')))
+        elif isinstance(a, (bytes, bytearray)):
+            n += 4 + len(a) + (-len(a)) % 4
+        else:
+            assert type(a) in (int, float), a
+            n += 4
+    return n
+
+
+def bundle_size(elements):
+    """Encoded size of a bundle holding the elements (messages or
+    [time, ...] bundles)."""
+    n = 16
+    for e in elements:
+        n += 4 + (msg_size(e) if isinstance(e[0], str)
+                  else bundle_size(e[1:]))
+    return n
+
+
+def _payload(rng, nbytes):
+    """arguments that encode to exactly nbytes (a multiple of 4, >= 8) plus
+    their type tags."""
+    r = rng.random()
+    if r < 0.7 or nbytes < 16:
+        return [bytes([rng.randrange(256)]) * (nbytes - 4)]
+    if r < 0.85:
+        return [rng.choice([0.5, -1.25, 3.0]) if k % 2 else k
+                for k in range(nbytes // 4)]
+    return ['s' * (nbytes - 1 - rng.randrange(4))]
+
+
+def gen_clump_send(rng, sid, size_class=None):
+    """-> (path, [latency, element, ...], info).  path in
+    {'clumped', 'bind', 'bind-addr'}; every message is
+    ['/c7', sid, k, payload...] with k counting in send order; info =
+    {'class': size class, 'raises': bool (bind blocks left by an exception:
+    nothing may be sent), 'inner': per message how it enters a bind block}."""
+    path = rng.choice(['clumped', 'clumped', 'bind', 'bind', 'bind-addr'])
+    if size_class is None:
+        size_class = rng.choice(['small', 'small', 'big', 'big', 'straddle',
+                                 'straddle', 'large-message'])
+    k = [0]
+
+    def msg(payload_bytes):
+        m = ['/c7', sid, k[0]] + _payload(rng, payload_bytes)
+        k[0] += 1
+        return m
+
+    els = []
+    if size_class == 'small':
+        els = [msg(rng.choice([8, 12, 64, 400])) for _ in range(rng.randint(1, 5))]
+    elif size_class == 'big':
+        unit = rng.choice([1000, 4000, 4000, 7000])
+        total = rng.choice([66000, 70000, 100000, 140000])
+        while bundle_size(els) <= total:
+            els.append(msg(unit + 4 * rng.randrange(8)))
+    elif size_class == 'large-message':
+        # single messages larger than the 8 kB the pieces are cut to
+        for _ in range(rng.randint(1, 6)):
+            els.append(msg(rng.choice([40, 4000, 8140, 8200, 12000, 30000])))
+    else:
+        # exactly at / one word around the limit
+        target = MAX_DGRAM + rng.choice([-8, -4, 0, 0, 4, 8])
+        unit = rng.choice([2000, 4000, 6000])
+        while True:
+            m = msg(unit)
+            if bundle_size(els + [m]) + 300 > target:
+                k[0] -= 1
+                break
+            els.append(m)
+        # last message: a blob that fills the rest exactly
+        m = msg(8)[:3] + [b'']
+        rest = target - bundle_size(els + [m])       # > 0, multiple of 4
+        m[3] = b'\x55' * rest
+        els.append(m)
+        assert bundle_size(els) == target, (bundle_size(els), target)
+    if path == 'clumped' and rng.random() < 0.15:
+        # a nested bundle as element (its own latency lies well after the
+        # nanoseconds added to the pieces, or the outer one is 'immediately')
+        p = rng.randrange(len(els) + 1)
+        els.insert(p, ['nested', [msg(16), msg(8)]])
+        # (k is renumbered below: order of ids = order of elements)
+    # renumber in element order
+    n = 0
+    for e in els:
+        for m in (e[1] if e[0] == 'nested' else [e]):
+            m[2] = n
+            n += 1
+    L = gen_lat(rng) if path != 'bind-addr' else None
+    if path != 'clumped':
+        L = rng.choice([0, 0.0, 0.2, 0.05, None, -1, 1, L])
+    if path == 'bind-addr':
+        L = None            # BundleNetAddr around a NetAddr: immediately
+    out = []
+    for e in els:
+        if e[0] == 'nested':
+            L2 = rng.choice([0.0, 0.3]) if (L is None or L < 0) \
+                else L + rng.choice([0.25, 1])
+            out.append([L2] + e[1])
+        else:
+            out.append(e)
+    info = {'class': size_class,
+            'raises': path != 'clumped' and rng.random() < 0.06,
+            'inner': [rng.choice(['msg', 'msg', 'msg', 'bundle', 'clumped'])
+                      for _ in out]}
+    return path, [L] + out, info
